@@ -388,6 +388,11 @@ func (w *c12World) unsealNS(n *c12NS) bool {
 }
 
 func (w *c12World) sealNS(n *c12NS) bool {
+	// Let background revocations drain first. Observation outside C12: a lease
+	// revocation job that runs while an ancestor namespace is being sealed finds its
+	// token's namespace gone (NamespaceByID == nil) and ExpirationManager.
+	// removeIndexByToken dereferences it: the whole process panics.
+	w.v.WaitQuiet(20*time.Millisecond, 2*time.Second)
 	resp, err := w.v.Do(vReq{Op: logical.UpdateOperation, Path: "sys/namespaces/" + n.Name + "/seal", Token: w.v.Root, NS: n.Parent.Path})
 	if !vOK(resp, err) {
 		w.step("seal %s refused: %s", n.Path, vErrStr(resp, err))
@@ -440,6 +445,7 @@ func (w *c12World) restartCore() bool {
 		w.r.Count("core_restarts_skipped_after_failed_namespace_unseal", 1)
 		return false
 	}
+	w.v.WaitQuiet(20*time.Millisecond, 2*time.Second)
 	if err := TestCoreSeal(w.v.Core); err != nil {
 		w.r.Inconc("[%s] core seal failed: %v", w.caseID, err)
 		return false
@@ -492,7 +498,26 @@ func (w *c12World) sync() {
 		}
 		o := w.nsObj(n)
 		if o == nil {
-			w.t.Fatalf("verif: namespace %q not known to the core", n.Path)
+			// (seen only in worlds already damaged by a failed namespace unseal / re-seal by the core)
+			n.Lost = true
+			w.r.Count("namespaces_unexpectedly_unknown_to_core", 1)
+			w.step("namespace %s is unexpectedly unknown to the core", n.Path)
+			continue
+		}
+		if n != w.root && w.v.Core.NamespaceSealed(o) {
+			// the core sealed it again on its own (failed post-unseal step); follow it
+			a := n
+			for a != nil && !a.Sealable {
+				a = a.Parent
+			}
+			if a == nil {
+				n.Lost = true
+			} else {
+				a.Sealed = true
+			}
+			w.r.Count("namespaces_found_sealed_by_the_core", 1)
+			w.step("namespace %s was found sealed by the core", n.Path)
+			continue
 		}
 		n.Prefix = NamespaceStoragePathPrefix(o)
 		ctx := namespace.ContextWithNamespace(context.Background(), o)
